@@ -321,6 +321,10 @@ func (m *machine) checkBody(r *simrt.Request, week string) {
 			return
 		}
 	}
+	if lw, _ := top["LastWeek"].(string); top["LastWeek"] != nil && lw != "" && !validWeek(lw) {
+		m.fail("extra-field", "request for week %s carries LastWeek %v, which is not a date", week, top["LastWeek"])
+		return
+	}
 	if top["Week"] != week {
 		m.fail("week-mismatch", "request to %s carries Week %v", r.URL, top["Week"])
 		return
@@ -497,6 +501,13 @@ func (m *machine) userChangesMode(viaCommands bool) {
 		os.WriteFile(modePath, []byte(odd[t.Draw(len(odd))]), 0666)
 		m.s.Probe("command-over-odd-mode-file")
 	}
+	if t.Bool(1, 10) {
+		os.Remove(modePath) // the user deleted it: the default (local) applies
+		m.s.Probe("mode-file-removed")
+		if !viaCommands && t.Bool(1, 2) {
+			return
+		}
+	}
 	oldMode, _, oldRaw, oldExists := parseMode(modePath)
 	if !viaCommands && t.Bool(1, 4) {
 		// arbitrary content
@@ -575,6 +586,10 @@ func (m *machine) userChangesMode(viaCommands bool) {
 	}
 	// C19: the command leaves the file alone if the mode is already the one asked for.
 	newMode, newAsof, newRaw, _ := parseMode(modePath)
+	if oldMode == want && !oldExists {
+		// no mode file means local: asking for local changes nothing
+		return
+	}
 	if oldMode == want && oldExists {
 		if !bytes.Equal(newRaw, oldRaw) {
 			m.fail("mode-command-rewrote", "gotelemetry %s with the mode already %q changed the mode file from %q to %q", want, oldMode, oldRaw, newRaw)
@@ -600,13 +615,21 @@ func (m *machine) userCleans() {
 	// One of the two data directories may be absent: nothing was uploaded yet,
 	// or the user removed local/ by hand.
 	dirs := []string{m.loc, m.upl}
-	switch t.Biased(3, 1, 2) {
+	switch t.Biased(4, 1, 2) {
 	case 0:
 		os.MkdirAll(m.upl, 0777)
 	case 1:
 		if _, err := os.Stat(m.upl); err != nil {
 			dirs = []string{m.loc}
 			m.s.Probe("clean-without-upload-dir")
+		}
+	case 3:
+		// upload is a plain file (something else took the name)
+		if _, err := os.Stat(m.upl); err != nil {
+			os.WriteFile(m.upl, []byte("not a directory"), 0666)
+			defer os.Remove(m.upl)
+			dirs = []string{m.loc}
+			m.s.Probe("clean-with-upload-a-file")
 		}
 	case 2:
 		os.MkdirAll(m.upl, 0777)
